@@ -129,30 +129,34 @@ def stringOfByte (ch : UInt8) : Bytes := appendRune ch.toUInt32
 
 def consBuf (pre : Bytes) (r : Bytes × Bool × State) : Bytes × Bool × State := (pre ++ r.1, r.2.1, r.2.2)
 
+/-- the one-byte escapes of `readString`'s inner `switch ch` (`\\r \\n \\t \\xHH`, any other byte
+stands for itself): (byte written, state) -/
+def readEscape (ch : UInt8) (s : State) : UInt8 × State :=
+  if ch == #b'r' then (13, s)
+  else if ch == #b'n' then (10, s)
+  else if ch == #b't' then (9, s)
+  else if ch == #b'x' then readHex s
+  else (ch, s)
+
 /-- the `for` loop of `(*Lexer).readString`; returns (buffer, ok, state) -/
 def readStringLoop (sep : UInt8) (doubleQuotes : Bool) : Nat → State → Bytes × Bool × State
   | 0, s => ([], false, s)
   | fuel + 1, s0 =>
-    let (ch, s) := s0.readChar
-    if doubleQuotes && ch == #b'\\' then
-      let (ch, s) := s.readChar
-      if ch == #b'u' then
-        let (r, s) := readUnicode16 s
-        consBuf (appendRune r) (readStringLoop sep doubleQuotes fuel s)
-      else if ch == #b'U' then
-        let (r, s) := readUnicode32 s
-        consBuf (appendRune r) (readStringLoop sep doubleQuotes fuel s)
+    let c := s0.readChar
+    if doubleQuotes && c.1 == #b'\\' then
+      let e := c.2.readChar
+      if e.1 == #b'u' then
+        let r := readUnicode16 e.2
+        consBuf (appendRune r.1) (readStringLoop sep doubleQuotes fuel r.2)
+      else if e.1 == #b'U' then
+        let r := readUnicode32 e.2
+        consBuf (appendRune r.1) (readStringLoop sep doubleQuotes fuel r.2)
       else
-        let (ch, s) :=
-          if ch == #b'r' then ((13 : UInt8), s)
-          else if ch == #b'n' then (10, s)
-          else if ch == #b't' then (9, s)
-          else if ch == #b'x' then readHex s
-          else (ch, s)
-        consBuf [ch] (readStringLoop sep doubleQuotes fuel s)
-    else if ch == sep then ([], true, s)
-    else if ch == 0 then ([], false, s)
-    else consBuf [ch] (readStringLoop sep doubleQuotes fuel s)
+        let r := readEscape e.1 e.2
+        consBuf [r.1] (readStringLoop sep doubleQuotes fuel r.2)
+    else if c.1 == sep then ([], true, c.2)
+    else if c.1 == 0 then ([], false, c.2)
+    else consBuf [c.1] (readStringLoop sep doubleQuotes fuel c.2)
 
 /-- `(*Lexer).readString`.  Every iteration reads at least one byte and an iteration that starts
 at or past the end stops the loop, so `size + 1 - pos` iterations suffice. -/
